@@ -58,6 +58,25 @@ def expected_trace(c, v, t=None):
     return out
 
 
+def repeated_keys(c):
+    import yaml
+    seen = set()
+
+    def walk(n):
+        if id(n) in seen:
+            return False
+        seen.add(id(n))
+        if isinstance(n, yaml.MappingNode):
+            keys = [k.value for k, _ in n.value if isinstance(k, yaml.ScalarNode)]
+            if len(set(keys)) != len(keys):
+                return True
+            return any(walk(k) or walk(v) for k, v in n.value)
+        if isinstance(n, yaml.SequenceNode):
+            return any(walk(x) for x in n.value)
+        return False
+    return c.node is not None and walk(c.node)
+
+
 def explore(ctx):
     cases = LC.CaseBuffer(ctx)
 
@@ -78,7 +97,11 @@ def explore(ctx):
                 ctx.violation('{} of class {} was invoked for class {}'.format(
                     '_yatiml_savorize' if e[0] == 'sav' else '_yatiml_recognize', e[1], e[2]),
                     dict(L.describe(c), key='foreign-hook:{}:{}'.format(e[1], e[2])))
-        if c.real_out[0] == 'ok':
+        if c.real_out[0] == 'ok' and repeated_keys(c):
+            # an entry built for a key that a later occurrence of the same key overwrites: its object was
+            # savorized and constructed but is not in the result
+            ctx.count('skipped_repeated_keys')
+        elif c.real_out[0] == 'ok':
             want = expected_trace(c, c.real_out[1])
             got = [e[1] for e in log if e[0] == 'sav']
             # savorizers that rename/replace attributes can make the value walk miss nothing: the
